@@ -231,6 +231,7 @@ fn module_json(m: &Module) -> J {
         ("iter_mode", J::s(m.iter_mode)),
         ("shape", J::s(m.shape)),
         ("config", J::s(m.config)),
+        ("ord_reversed", J::Bool(m.ord_reversed)),
         ("n", J::Int(m.n() as i128)),
         ("gapless", J::Bool(m.gapless())),
         ("has_iter", J::Bool(m.new_iter.is_some())),
